@@ -138,7 +138,7 @@ class ExprMixin:
             return self.ev_Constant(expr, st)[0].val
         return Val(py=("modattr", f"{mi.relpath}:{name}"))
 
-    SPEC_FUNCS = {"old", "implies", "iff", "forall", "exists", "result", "is_exc", "typeof_is", "str_eq", "fresh_ref",
+    SPEC_FUNCS = {"old", "now", "implies", "iff", "forall", "exists", "result", "is_exc", "typeof_is", "str_eq", "fresh_ref",
                   "unchanged", "contains", "same_except", "is_fresh", "forall_val", "is_empty"}
 
     # ------------------------------------------------------------ attribute access
@@ -755,7 +755,7 @@ class ExprMixin:
         items = fresh("cat", z3.ArraySort(IntS, V))
         k = fresh("k", IntS)
         st.assume(z3.ForAll([k], z3.Implies(z3.And(0 <= k, k < la), z3.Select(items, k) == z3.Select(ia, k))))
-        st.assume(z3.ForAll([k], z3.Implies(z3.And(0 <= k, k < lb), z3.Select(items, la + k) == z3.Select(ib, k))))
+        st.assume(z3.ForAll([k], z3.Implies(z3.And(la <= k, k < la + lb), z3.Select(items, k) == z3.Select(ib, k - la))))
         eth = a.th.args[0] if a.th and a.th.args else None
         return self.new_list_sym(st, items, la + lb, eth)
 
